@@ -616,7 +616,7 @@ fn scenario<H: ArchH>(rep: &mut Report, p: &mut Prng, arch: Arch, id: u64) {
 /// A random opcode of every kind either architecture distinguishes.
 fn random_opcode(p: &mut Prng, fde_offsets: &[u64]) -> u32 {
     let flags = (p.below(4) as u32) << 30 | if p.chance(1, 8) { (p.below(4) as u32) << 28 } else { 0 };
-    let body: u32 = match p.below(12) {
+    let body: u32 = match p.below(14) {
         0 => 0,
         1 => 0x0100_0000 | (p.next() as u32 & 0x7fff),
         2 => 0x0200_0000 | (1 << 16),
@@ -633,6 +633,18 @@ fn random_opcode(p: &mut Prng, fde_offsets: &[u64]) -> u32 {
         }
         9 => 0x0400_0000 | (p.next() as u32 & 0xfff),
         10 => ((5 + p.below(11)) as u32) << 24,
+        11 => {
+            // a well-formed frameless entry: 1-6 distinct saved registers in any order (rbp at
+            // any position), a frame that holds them
+            let count = 1 + p.below(6) as usize;
+            let mut regs: Vec<u8> = vec![1, 2, 3, 4, 5, 6];
+            for i in (1..regs.len()).rev() {
+                regs.swap(i, p.below(i as u64 + 1) as usize);
+            }
+            regs.truncate(count);
+            let size_by_8 = (count as u32 + 1 + p.below(8) as u32).min(255);
+            0x0200_0000 | (size_by_8 << 16) | ((count as u32) << 10) | encode_permutation(&regs)
+        }
         _ => 0x0200_0000 | ((p.below(0x1000) as u32) << 12),
     };
     (body & 0x0fff_ffff) | (flags & 0xf000_0000)
